@@ -126,7 +126,7 @@ class H:
 	"""One Kani harness instance."""
 
 	def __init__(self, name, crate, path, tier="quick", funcs=(), bounds="", stubs=(), timeout=None, mem_gb=None,
-			unwindset=None, sample="", replay="playback", cbmc_args=(), expect_cover=True, kani_args=()):
+			unwindset=None, sample="", replay="playback", cbmc_args=(), expect_cover=True, kani_args=(), should_panic=False):
 		self.name = name  # function name
 		self.crate = crate  # cargo package
 		self.path = path  # module path inside the crate, e.g. verif_kani::c15
@@ -142,6 +142,7 @@ class H:
 		self.cbmc_args = list(cbmc_args)
 		self.expect_cover = expect_cover
 		self.kani_args = list(kani_args)
+		self.should_panic = should_panic
 
 	@property
 	def full(self):
@@ -165,7 +166,7 @@ class Result:
 		self.cover_sat = 0
 
 
-CHECK_RE = re.compile(r"^Check (\d+): (\S+)\n\t - Status: (\w+)\n\t - Description: \"(.*?)\"\n(?:\t - Location: (.*?)\n)?", re.M | re.S)
+CHECK_RE = re.compile(r"^Check (\d+): (.*?)\n\t - Status: (\w+)\n\t - Description: \"(.*?)\"\n(?:\t - Location: (.*?)\n)?", re.M | re.S)
 
 
 def parse_log(text, res):
@@ -203,6 +204,17 @@ def parse_log(text, res):
 		res.solver_s = float(m.group(1))
 	res.cover_total = len(res.covers)
 	res.cover_sat = sum(1 for v in res.covers.values() if v)
+	if res.h.should_panic:
+		# #[kani::should_panic]: Kani's verdict is SUCCESSFUL iff a panic is reachable and nothing else fails
+		panics = [f for f in res.failed if f["check"].endswith(tuple(".assertion.%d" % i for i in range(1, 50)))]
+		others = [f for f in res.failed if f not in panics]
+		if verdict == "SUCCESSFUL":
+			res.failed = []
+			res.status = "success"
+		else:
+			res.failed = others or [{"check": "should_panic", "description": "expected panic is not reachable", "location": "", "function": res.h.full}]
+			res.status = "failed"
+		return
 	if res.failed:
 		res.status = "failed"
 	elif res.unwind_failed:
@@ -397,7 +409,7 @@ def harness_source_file(h, ws):
 			if f.endswith(".rs"):
 				p = os.path.join(root, f)
 				try:
-					if re.search(r"fn " + re.escape(h.name) + r"\s*\(", _read(p)):
+					if re.search(r"\b" + re.escape(h.name) + r"\b", _read(p)):
 						return p
 				except Exception:
 					pass
@@ -501,10 +513,10 @@ def run_property(prop, harnesses, tier, meta):
 			rc = 1
 		else:
 			inconclusive.append(f"{r.h.name}: solver counterexample did not reproduce natively ({detail}): {desc}")
+	for i in inconclusive:
+		print(f"INCONCLUSIVE property={prop} {i}")
 	if inconclusive and rc == 0:
 		rc = 2
-		for i in inconclusive:
-			print(f"INCONCLUSIVE property={prop} {i}")
 	write_evidence(prop, tier, seed, results, meta, time.time() - t0, nviol, inconclusive, known_hits)
 	ok = sum(1 for r in results if r.status == "success")
 	print(f"[{prop}] tier={tier} harnesses={len(results)} proven={ok} known-findings={len(printed)} violations={nviol} "
